@@ -2,4 +2,12 @@ package main
 
 import "qedverif/cq"
 
-func dispatch16(cmd string, out *cq.Out, seed uint64, tier, arg string) bool { return false }
+func dispatch16(cmd string, out *cq.Out, seed uint64, tier, arg string) bool {
+	switch cmd {
+	case "cmdwire":
+		cmdwireCmd(out, seed, tier)
+	default:
+		return false
+	}
+	return true
+}
